@@ -13,8 +13,11 @@ def configs(tier):
     out.append(dict(universe="H5", values=("S", "L"), prune=False, use_cache=False, max_mut=1, root_via="root_node"))
     for prune in (False, True):
         out.append(dict(universe="H4", values=("S", "L"), prune=prune, use_cache=False, max_mut=1, root_via="root_node", batch_mut=True))
+    # the pruning trie being walked was re-opened on its database with regenerated reference counts
+    out.append(dict(universe="H4", values=("S", "L"), prune=True, use_cache=False, max_mut=1, regen=True))
     if tier == "thorough":
         out = []
+        out.append(dict(universe="H5", values=("S", "L"), prune=True, use_cache=True, max_mut=1, regen=True))
         for prune in (False, True):
             for cache in (False, True):
                 out.append(dict(universe="H6", values=("S", "L"), prune=prune, use_cache=cache, max_mut=1))
@@ -40,7 +43,7 @@ def run(tier, seed):
             kw["init"] = tuple(kw["init"])
         sysm = WalkSys(seed=seed, **kw)
         res = explore(sysm, state_cap=3_000_000, replay_cap=4000)
-        name = f"{kw['universe']} prune={kw['prune']} cache={kw['use_cache']} M<={kw['max_mut']}" + (" via root_node" if kw.get("root_via") == "root_node" else "") + (" +batches" if kw.get("batch_mut") else "")
+        name = f"{kw['universe']} prune={kw['prune']} cache={kw['use_cache']} M<={kw['max_mut']}" + (" via root_node" if kw.get("root_via") == "root_node" else "") + (" +batches" if kw.get("batch_mut") else "") + (" re-opened with regenerated counts" if kw.get("regen") else "")
         rep.add_bfs(name, res, sysm, keep_samples=1)
         rep.parts[-1]["terminal_states"] = res.terminal_states
         rep.parts[-1]["schedules"] = res.paths_to_terminals
